@@ -27,6 +27,9 @@ def overlap_case(rng, n, i):
     for k in range(n):
         if k == i:
             terms.append(each(0, 1 << a, k + 1, k + 1))
+            if n % 2 == 0:
+                # the specific pattern written with matching!: two alternatives under one trailing guard
+                terms[-1]["pat"]["macro"] = "two"
         elif k == i + 1:
             terms.append(each(0, 255, k + 1, k + 1))
         else:
